@@ -7,14 +7,16 @@ package main
 //	c08 dist32 g=.. w=.. cu=.. probe=x,y,z
 //	    real driver split (distributeWGToGPUs + the WGFilter closures of the launched GPUs) on
 //	    geometries whose work-group counts are near / beyond 2^32 or have an empty axis; answer =
-//	    the cumulative ranges and the GPUs whose closure accepts work-group (x,y,z)
+//	    the cumulative ranges, the GPUs whose closure accepts work-group (x,y,z), and whether
+//	    the driver completed the command at once (nothing to dispatch)
 //	c08 cnt32 g=.. w=..
 //	    real GridBuilder without filter: NumWG() and the first NextWG()
 //
-// Oracles (independent of the model, arithmetic in uint64/int64 that cannot wrap here):
+// Oracles (independent of the model, arithmetic in uint64/float64 that cannot wrap here):
 // a probe inside the grid's work-group box must be accepted by exactly one launched GPU
-// (C08.wgdist32.partition inside the NoWrap bound of the Lean theorem, C08.wgdist32.wrap outside
-// it), and NumWG must be 0 when NextWG yields nothing (C08.numwg.emptyaxis).
+// (C08.wgdist32.partition, also at and beyond 2^32 work-groups), an empty grid launches on no GPU
+// and its command completes at once (C08.launch.empty), a non-empty one is not dropped
+// (C08.launch.dropped), and NumWG must be 0 when NextWG yields nothing (C08.numwg.emptyaxis).
 
 import (
 	"fmt"
@@ -36,7 +38,18 @@ func c08dCount(g, w int) uint64 {
 
 func c08dDist32(r *Run, g, w c08Geo, cus []int, probe c08Geo) {
 	line := fmt.Sprintf("c08 dist32 g=%s w=%s cu=%s probe=%s", g, w, c08CUString(cus), probe)
-	dist, filters, fault := c08UnifiedSplit(g, w, cus)
+	var dist []int
+	var filters []kernels.WGFilterFunc
+	completed := false
+	fault := catch(func() {
+		e := c08Driver(cus)
+		dist, filters, completed = e.d.VerifUnifiedLaunchQueued(e.queue, *c08Packet(g, w))
+	})
+	if strings.Contains(fault, "divide_by_zero") {
+		fault = "div0"
+	} else if strings.Contains(fault, "not_all_wg_allocated") {
+		fault = "not_all_allocated"
+	}
 	if fault != "" {
 		r.Case(line, "fault:"+fault)
 		return
@@ -59,28 +72,43 @@ func c08dDist32(r *Run, g, w c08Geo, cus []int, probe c08Geo) {
 	if len(acc) > 0 {
 		as = c08Ints(acc)
 	}
-	r.Case(line, fmt.Sprintf("d=%s acc=%s", c08Ints(dist), as))
+	r.Case(line, fmt.Sprintf("d=%s acc=%s done=%d", c08Ints(dist), as, c08B2i(completed)))
 
 	nx, ny, nz := c08dCount(g[0], w[0]), c08dCount(g[1], w[1]), c08dCount(g[2], w[2])
+	if nx == 0 || ny == 0 || nz == 0 {
+		// empty grid: nothing to dispatch, no GPU involved, the command completes at once
+		r.Checked("launch.empty")
+		r.Count("dist32.empty")
+		launched := 0
+		for _, f := range filters {
+			if f != nil {
+				launched++
+			}
+		}
+		if !completed || launched != 0 {
+			r.Failf("C08.launch.empty", line, "empty grid: %d GPUs received a launch request, command completed=%v, ranges %v", launched, completed, dist)
+		}
+		return
+	}
+	r.Checked("launch.nonempty")
+	if completed {
+		r.Failf("C08.launch.dropped", line, "a grid with %dx%dx%d work-groups was completed without a launch request, ranges %v", nx, ny, nz, dist)
+	}
 	inBox := uint64(probe[0]) < nx && uint64(probe[1]) < ny && uint64(probe[2]) < nz
 	if !inBox {
 		r.Count("dist32.probe-outside")
 		return
 	}
-	// nx,ny,nz <= 2^32: nx*ny fits in uint64; compare the triple product with 2^32 without overflow
-	noWrap := g[0] > 0 && g[1] > 0 && g[2] > 0 && nx*ny < 1<<32 && nx*ny*nz < 1<<32
-	if noWrap {
-		r.Checked("wgdist32.partition")
-		r.Count("dist32.nowrap")
-		if len(acc) != 1 {
-			r.Failf("C08.wgdist32.partition", line, "work-group %v of a grid with %d work-groups (< 2^32) is accepted by GPUs %v, ranges %v", probe, nx*ny*nz, acc, dist)
-		}
-		return
+	// exactly one launched GPU must accept a work-group of the grid, whatever the size of the
+	// grid (the generator stays below 2^62 work-groups: 64-bit int arithmetic does not overflow)
+	r.Checked("wgdist32.partition")
+	if float64(nx)*float64(ny)*float64(nz) < 4294967296.0 {
+		r.Count("dist32.below-2^32")
+	} else {
+		r.Count("dist32.at-or-beyond-2^32")
 	}
-	r.Checked("wgdist32.wrap")
-	r.Count("dist32.wrap")
 	if len(acc) != 1 {
-		r.Failf("C08.wgdist32.wrap", line, "work-group %v exists (box %dx%dx%d, >= 2^32 groups: the driver's uint32 product wrapped) but is accepted by GPUs %v, ranges %v", probe, nx, ny, nz, acc, dist)
+		r.Failf("C08.wgdist32.partition", line, "work-group %v of a grid with %dx%dx%d work-groups is accepted by GPUs %v, ranges %v", probe, nx, ny, nz, acc, dist)
 	}
 }
 
@@ -89,13 +117,11 @@ func c08dCnt32(r *Run, g, w c08Geo) {
 	// countWG multiplies three 64-bit ints; stay far from 2^63 (the model is unbounded there)
 	est := 1.0
 	for a := 0; a < 3; a++ {
-		if g[a] == 0 {
-			est *= 4294967296.0
-		} else {
+		if g[a] != 0 { // an empty axis makes the product 0 whatever the partial product was
 			est *= float64(c08dCount(g[a], w[a]))
 		}
 	}
-	if est >= 4e18 {
+	if est >= 4e18 { // also keeps the model's unbounded product equal to the int64 one
 		r.Count("cnt32.skipped-int64")
 		return
 	}
@@ -118,7 +144,7 @@ func c08dCnt32(r *Run, g, w c08Geo) {
 	r.Case(line, fmt.Sprintf("n=%d first=%s", n, first))
 	r.Checked("numwg.first")
 	if first == "nil" && n != 0 {
-		r.Failf("C08.numwg.emptyaxis", line, "NumWG announces %d work-groups but NextWG yields none (GridSize-1 wrapped in uint32)", n)
+		r.Failf("C08.numwg.emptyaxis", line, "NumWG announces %d work-groups but NextWG yields none (empty axis)", n)
 	}
 	if first != "nil" && n == 0 {
 		r.Failf("C08.numwg.zero", line, "NumWG announces 0 work-groups but NextWG yields %s", first)
